@@ -13,7 +13,7 @@ CHECKS: dict[str, dict[str, str]] = {
     'C12': dict(
         technique='TLA+ reference of the API retry loop, throttling and re-authentication (Infra.tla); the laws checked by TLC over all fault '
                   'words; the real api.request / throttled processing / Vault run in virtual time, records judged by TLC',
-        text='[+ timers whose own PATCH exhausts the retries: known finding F17] RetryPlan gives the exact instants of all attempts for a fault word (connection errors, timeouts, 5xx, 403, 429 with Retry-After, '
+        text='[+ a session whose close() takes time while another request retries from its backoff; reuse of invalidated credentials judged at the instant a request leaves the client] [+ timers whose own PATCH exhausts the retries: known finding F17] RetryPlan gives the exact instants of all attempts for a fault word (connection errors, timeouts, 5xx, 403, 429 with Retry-After, '
              'other 4xx) under a backoff list and enforce_retry_after; TLC checks its laws for 37 448 cases and then judges the real '
              'api.request on ~900 (quick) / all (thorough) words: attempt instants must be equal. Throttling: per-object delays grow per '
              'consecutive error, reset by success, other objects are processed at their arrival instants, the operator stays alive and '
@@ -22,9 +22,9 @@ CHECKS: dict[str, dict[str, str]] = {
              '(failed re-login kills the authenticator) and F17 (timer/daemon dies on exhausted retries) are documented, not exercised here',
         ref='DESIGN.md 4/C12'),
     'C19': dict(
-        technique='TLA+ model of the list-then-watch continuity logic (Watching.tla) checked exhaustively with TLC; recorded executions of '
+        technique='implementation-shaped TLA+ model of one watcher task (Streaming.tla) model-checked with a server (MC_Streaming) and bound to the code by trace validation of every watcher task (Trace_Streaming); TLA+ model of the list-then-watch continuity logic (Watching.tla) checked exhaustively with TLC; recorded executions of '
                   'the real operator against the stateful fake API checked by TLC against a TLA+ property automaton (WatchMonitor.tla)',
-        text='[+ Orchestration.tla: observers vs orchestrator under the `revised` condition, Coverage for any number of revisions over 4 pairs, negative model loses a wake-up; CRDs modified at run time] Watching.tla: a server change log, a client that lists, watches from a remembered version and survives EOF, connection errors, '
+        text='[+ Streaming.tla: the implementation-shaped, timed model of one watcher task (list/watch calls with api.request retries, Retry-After, reconnect_backoff, 410, client and inactivity timeouts, pause notice, cancellation), closed with a server in MC_Streaming (continuity laws, 2.2M states quick / 62M thorough, negative `jump` configuration); Trace_Streaming validates EVERY watcher task of every run second by second (version resumed from, instant of every request, hand-over of every event, closing on pause); a cluster-scoped kind under a namespace-restricted operator (known family F34)] [+ Orchestration.tla: observers vs orchestrator under the `revised` condition, Coverage for any number of revisions over 4 pairs, negative model loses a wake-up; CRDs modified at run time] Watching.tla: a server change log, a client that lists, watches from a remembered version and survives EOF, connection errors, '
              'timeouts, 410 after compaction, bookmarks and an unknown ERROR; NoSkip / SinceNeverAhead / AllReach hold in every reachable '
              'state for 4 changes x 3 faults (two configurations), and a negative configuration (resume version ahead of the stream) must '
              'fail. The real operator then runs random object histories with stream faults at random positions, and namespace/CRD churn under '
@@ -33,13 +33,13 @@ CHECKS: dict[str, dict[str, str]] = {
              'served (resource, namespace) pair. The known families F15 (unknown ERROR kills the watcher silently), F25 and F32 (a list/watch '
              'request that gives up with a 5xx/403 kills it likewise) are monitor verdicts. Watches are also cut by server / client / inactivity '
              'timeouts, and list/watch requests answered 429 / 503 / transport errors several times in a row.',
-        note='resource versions are integers of the fake server (histories start just below 10 / 100 / 1000 so that the decimal width of the version grows within a stream); pausing by peering is covered by C13; the timing of reconnects is not judged',
+        note='resource versions are integers of the fake server (histories start just below 10 / 100 / 1000 so that the decimal width of the version grows within a stream); pausing by peering is covered by C13 (its watcher tasks go through Trace_Streaming, too); whole virtual seconds, zero request latency in the step traces',
         ref='DESIGN.md 4/C19'),
     'C13': dict(
         technique='explicit TLA+ model of peering (Peering.tla: keep-alive, evaluation of queued snapshots, clean, deadline sleep, graceful '
                   'exit, kill, foreign writes) checked exhaustively with TLC incl. liveness; executions of 1-3 real operators sharing a peering '
                   'object in virtual time validated by TLC against the specification (Trace_Peering.tla, with time urgency)',
-        text='[+ schedules drawn by TLC (-simulate on Sim_Peering) replayed into the real operators] TLC: RenewsInTime and WithdrawsOnExit in every state, ExactlyTop / EventuallyStable and CleansDead under fairness, for every '
+        text='[+ the watcher tasks of the handled kind in all runs validated step by step against Streaming.tla: closed in the instant the pause reaches the task, nothing requested while paused, back-off and a fresh listing afterwards] [+ schedules drawn by TLC (-simulate on Sim_Peering) replayed into the real operators] TLC: RenewsInTime and WithdrawsOnExit in every state, ExactlyTop / EventuallyStable and CleansDead under fairness, for every '
              'order of starts, exits, kills and foreign writes of 2-3 operators with stale snapshots queued; negative and witness '
              'configurations (period = lifetime; families F26, F27). Real operators: every PATCH of the peering object must be the write '
              'the specification predicts at that instant (content and time), every evaluation must split the peers into dead / higher / '
@@ -67,7 +67,7 @@ CHECKS: dict[str, dict[str, str]] = {
         technique='TLA+ reference of patch delivery (Patching.tla over JV.tla: the plan of up to four requests, server-side merge / JSON-patch '
                   'semantics, conflict carry-forward); every request of the real patching.patch_obj against the stateful fake API is '
                   'replayed by TLC against the reference',
-        text='For patch contents (body / status / both) x transformation lists (finalizer add / remove, state-checking list append, status '
+        text='[+ daemons and timers of one object, each invocation with a patch of its own while the others work: Patching!ClassifyDLoop (content in exactly one request, effect exactly once at rest)] For patch contents (body / status / both) x transformation lists (finalizer add / remove, state-checking list append, status '
              'edit) x resources with / without the status subresource x initial objects x one foreign write (spec, another finalizer, '
              'status, disappearance, delete-and-recreate) at every position relative to the requests and before the call, over up to '
              'four cycles: the endpoint and content type of every request, the merge payloads, the version test of every JSON-patch '
@@ -80,7 +80,7 @@ CHECKS: dict[str, dict[str, str]] = {
     'C17': dict(
         technique='TLA+ reference state machine of indexing (Indexing.tla); the recorded steps of the real operator are replayed by TLC, which '
                   'predicts the handlers that run and the full contents of every index after each step; gate scenarios judged by the same module',
-        text='[+ Gate.tla: readiness gate x worker limit, handlers only after the initial index, startup terminates; witness of F16] Random histories (adds, edits, label toggles, deletes over 3 objects with colliding keys, 2 indices, results: mapping / scalar / '
+        text='[+ objects are incarnations (uid): an object re-created under its name while the old one's worker is still busy] [+ Gate.tla: readiness gate x worker limit, handlers only after the initial index, startup terminates; witness of F16] Random histories (adds, edits, label toggles, deletes over 3 objects with colliding keys, 2 indices, results: mapping / scalar / '
              'None / temporary / permanent / arbitrary error) run on the real operator; an on.event handler dumps the indices through the '
              'kwarg views after every event; TLC replays each trace through Indexing.tla and requires equality of the handler sets and of all '
              'index contents. The readiness gate is exercised with delayed listings of two indexed kinds and objects arriving meanwhile.',
@@ -109,7 +109,7 @@ CHECKS: dict[str, dict[str, str]] = {
     'C10': dict(
         technique='explicit TLA+ transcription of the timer loop (Timers.tla) checked exhaustively with TLC; start/end instants of the real '
                   'timer function in virtual time validated by TLC against the specification (Trace_Timers.tla)',
-        text='[+ no change-detecting handler at all: family F6 as a named deviation of the trace specification] FirstRun, NoOverlap, IdleLaw, AfterOk, AfterOkSharp, AfterTemp, AfterExc and PermanentEndsIt hold in every state of the model '
+        text='[+ zero delays and zero backoffs: the retry starts at once; AfterTemp states the exact instant] [+ no change-detecting handler at all: family F6 as a named deviation of the trace specification] FirstRun, NoOverlap, IdleLaw, AfterOk, AfterOkSharp, AfterTemp, AfterExc and PermanentEndsIt hold in every state of the model '
              '(7 configurations x durations x outcome scripts x change instants, ~3 million states). The real operator runs one timer per '
              'scenario under a virtual clock; since the specification is deterministic given the environment\'s choices, a trace is accepted '
              'only if every start instant is exactly the one the laws give. The check showed F2 (fixed: 9a87981) and F1 (fixed: b6c0de9).',
@@ -119,7 +119,7 @@ CHECKS: dict[str, dict[str, str]] = {
     'C15': dict(
         technique='TLA+ reference of handler selection (Filters.tla, an executable reading of docs/filters.rst) checked by TLC over the '
                   'declaration x state space; real decorators/registries run on the same space, records judged by TLC; closed-loop stealth traces',
-        text='Every declaration of the criteria alphabet (9 handler kinds x label criteria incl. two keys x field/value criteria x old/new x '
+        text='[+ the resource selector: Filters!SelMatches (group, version vs preferred, kind/plural/singular/shortcut/category/any-name/EVERYTHING/callable, Kubernetes events excluded) vs the real Selector.check and the registry] Every declaration of the criteria alphabet (9 handler kinds x label criteria incl. two keys x field/value criteria x old/new x '
              'when) is registered through the real kopf.on.* decorators; every object/old/new state becomes a real cause; the real registry\'s '
              'selection is compared with Filters!Matches for each pair by TLC (bounded-exhaustive, 50-200k pairs). De-duplication by (fn, id) '
              'and the stealth guarantee (closed loop, Trace_Handling: Stealth) are part of the check. Families F10, F11 are TLA+ predicates.',
@@ -129,7 +129,7 @@ CHECKS: dict[str, dict[str, str]] = {
     'C16': dict(
         technique='TLA+ specification of annotation-name validity and key shape over code-point sequences (Keys.tla) checked by TLC; real '
                   'key forming and storages run on bounded-exhaustive/boundary/hypothesis ids, records judged by TLC',
-        text='ValidKey (Kubernetes name syntax), the V2/V1 key shape (safe characters, 63-character cut, hash suffix), stability across '
+        text='[+ the last-handled state through every diff-base storage: empty and falsy essences, an older state already on the object] ValidKey (Kubernetes name syntax), the V2/V1 key shape (safe characters, 63-character cut, hash suffix), stability across '
              'interpreter processes with different hash seeds, distinctness of long ids with a common prefix, and store/fetch/purge round '
              'trips with isolation of neighbours, other prefixes and user data, through 5 storage configurations; every record is judged by '
              'Keys!ClassifyC16 in TLC. Family F7 is a TLA+ predicate.',
@@ -138,7 +138,7 @@ CHECKS: dict[str, dict[str, str]] = {
     'C18': dict(
         technique='TLA+ reference of the admission response (Admission.tla over JV.tla: RFC 7386 merge, RFC 6902 application incl. move/copy); '
                   'the real serve_admission_request run on systematic combinations, records judged by TLC',
-        text='allowed iff no selected handler raised; message/code from the most specific error; warnings in order; exactly the selected '
+        text='[+ the handlers' filters (labels, field/value, when) in the selection, judged on the reviewed object with a differing other object] allowed iff no selected handler raised; message/code from the most specific error; warnings in order; exactly the selected '
              'handlers ran (webhook id, operation, subresource, mutating-on-DELETE opt-in); the returned JSON patch applied to the reviewed '
              'object equals the transformations applied to the RFC 7386 merge of the instructions, up to empty mappings - decided by TLC for '
              'every record of the real code. Families F12, F13, F24 are TLA+ predicates.',
@@ -147,7 +147,7 @@ CHECKS: dict[str, dict[str, str]] = {
     'C04': dict(
         technique='TLA+ reference semantics of essence and diff (Essence.tla over JV.tla); TLC checks the diff laws on the reference for all '
                   'pairs of small bodies; records of the real essence/diff functions are judged by TLC (ClassifyC04)',
-        text='DiffSound / DiffComplete / ReduceExact hold on the reference for 810 900 (quick) or 9.8 million (thorough) pairs of bodies. '
+        text='[+ ordinary annotations of look-alike domains (keys that merely begin with a managed prefix)] DiffSound / DiffComplete / ReduceExact hold on the reference for 810 900 (quick) or 9.8 million (thorough) pairs of bodies. '
              'The real diffbase.build + progress.clear, storages\' store/purge/touch, finalizer edits, diffs.diff and diffs.reduce are run on '
              'bounded-exhaustive bodies x 4 storage configurations (x extra fields) and on hypothesis-generated documents; TLC decides for '
              'every record: own / foreign-Kopf writes invisible, other edits visible, essence equal to the reference Essence, diffs equal to '
@@ -206,7 +206,7 @@ CHECKS: dict[str, dict[str, str]] = {
     'C11': dict(
         technique='explicit TLA+ model of the closed loop of one object (Handling.tla) checked exhaustively with TLC; traces of the real '
                   'kopf.operator() in the world simulator validated by TLC against the specification (Trace_Handling.tla)',
-        text='[+ Execution.tla: reference of one invocation - timeout / retries before the attempt, look-ahead for temporary and arbitrary errors, error modes, backoff - laws checked by TLC over 143 360 input combinations; the real execute_handler_once on configurations x states (incl. runtimes beyond 24 h) x behaviours for an activity and a change handler judged by TLC] retry numbering, delays (a handler is never invoked before its recorded delay), permanence, ignored mode and the retries limit for change handlers incl. across kills/restarts (RetriesBounded, InvokeGoverned); records after every PATCH are compared field by field' ' -- checked by TLC on Handling.tla for every interleaving of the bounded configurations, and on every state of '
+        text='[+ Activities.tla: whole activities (the reference of one invocation iterated over the rounds) vs the real run_activity with scripted handlers that end in different rounds: attempt instants, per-handler verdicts, the activity's verdict] [+ re-listings whose snapshot predates the own patch and is delivered after it (patch latency, list answer latency, compaction)] [+ Execution.tla: reference of one invocation - timeout / retries before the attempt, look-ahead for temporary and arbitrary errors, error modes, backoff - laws checked by TLC over 143 360 input combinations; the real execute_handler_once on configurations x states (incl. runtimes beyond 24 h) x behaviours for an activity and a change handler judged by TLC] retry numbering, delays (a handler is never invoked before its recorded delay), permanence, ignored mode and the retries limit for change handlers incl. across kills/restarts (RetriesBounded, InvokeGoverned); records after every PATCH are compared field by field' ' -- checked by TLC on Handling.tla for every interleaving of the bounded configurations, and on every state of '
              'the behaviour that explains each recorded trace of the real operator (seeded random scenarios of profile errors; every '
              'PATCH is compared with the specification\'s server object field by field, virtual time is bound by urgency). Daemons and timers '
              'hold the finalizer too: the daemon executions of C09 are validated against Spawning.tla (Trace_Spawning: every finalizer write must '
@@ -231,7 +231,7 @@ CHECKS: dict[str, dict[str, str]] = {
         technique='explicit TLA+ model of the multiplexer (Queueing.tla) checked exhaustively with TLC incl. liveness; traces of the '
                   'real watcher/worker/scheduler (q.* hooks) recorded under a virtual clock and validated by TLC against the spec '
                   '(Trace_Queueing.tla, with time urgency)',
-        text='TLC visits every interleaving of arrivals, scheduler starts, idle-timeout expiries (enabled whether or not the backlog '
+        text='[+ a cluster-scoped kind served by an operator restricted to several namespaces: one stream, every event once] TLC visits every interleaving of arrivals, scheduler starts, idle-timeout expiries (enabled whether or not the backlog '
              'was just filled), processing ends and watcher cancellation for 2-3 objects x 2-3 events under worker limits '
              '{unlimited, 1, 2}; the negative configuration shows the invariants detect the lost event. The real operator is then run '
              'in the world simulator on crafted and seeded-random timed scenarios that force exactly those schedules (an arrival at '
